@@ -13,7 +13,7 @@ git -C /repo worktree remove --force $wt 2>/dev/null
 git -C /repo worktree add -q --detach $wt HEAD || exit 2
 cp $src/patch.diff $out/patch.diff
 demo=$(ls $src | grep -E '_test\.go$|main\.go$' | grep -v FOREIGN | head -1)
-demopath=$(grep -oE '[a-zA-Z0-9_/.-]*seeded_demo_test\.go' $src/demo_cmd.txt | grep -v '^/tmp/seed-out' | head -1 | sed -E "s#^/tmp/wt2?-[A-Z0-9]+/##")
+demopath=$(grep -oE '[a-zA-Z0-9_/.-]*seeded_demo_test\.go' $src/demo_cmd.txt | grep -v '^/tmp/seed-out' | head -1 | sed -E "s#^/tmp/wt[0-9]*-[A-Z0-9]+/##")
 [ -z "$demopath" ] && demopath=seeded_demo_test.go
 runcmd=$(grep -oE "go test [^\`]*" $src/demo_cmd.txt | head -1)
 cp $src/$demo $out/$demo
